@@ -80,6 +80,19 @@ def generic_replay(contract, obname, obkind, model_py, info):
         return info
     fn = getattr(fn, "__wrapped__", fn)
     kwargs = {p: model_py[p] for p in contract.params if p in model_py}
+
+    def _is_model_object(v):
+        if isinstance(v, (list, tuple, set, frozenset)):
+            return any(_is_model_object(x) for x in v)
+        if isinstance(v, dict):
+            return any(_is_model_object(x) for x in v.values())
+        return type(v).__module__.split(".")[0] in ("pyvc", "contracts") or (isinstance(v, str) and v.startswith("<") and ":" in v and v.endswith(">"))
+
+    if any(_is_model_object(v) for v in kwargs.values()):
+        # an abstract value (opaque sort, modelled object) has no concrete counterpart to call the real function with
+        info["note"] = "counterexample contains abstract values that cannot be turned into real arguments"
+        info["inputs"] = {k: repr(v)[:200] for k, v in kwargs.items()}
+        return info
     patched = []
     try:
         for (modname, attr) in contract.globals_:
